@@ -1196,7 +1196,7 @@ pub fn exec_binary(w: &mut SessWorker, trace: &Value, res: &mut ExecResult) {
     let r = crate::ptyrepl::run_repl(
         &crate::c22::cli_binary(),
         &sandbox,
-        crate::sess::MODULES_DIR,
+        &crate::sess::modules_dir(),
         &all,
         std::time::Duration::from_secs(60),
     );
@@ -1247,7 +1247,7 @@ pub fn exec_binary(w: &mut SessWorker, trace: &Value, res: &mut ExecResult) {
             &["--no-config".to_string(), "--no-init".to_string(), "script.nbt".to_string()],
             &files,
             &[],
-            crate::sess::MODULES_DIR,
+            &crate::sess::modules_dir(),
         );
         res.bump("replays_with_real_binary");
         let so: Vec<&str> = out.stdout.lines().map(|l| l.trim()).collect();
